@@ -17,7 +17,9 @@ fn canon<T: Debug>(r: &Result<T, EErr>) -> String {
     format!("{:?}", r)
 }
 
-/// The seven typed projections of an untyped result, as canonical strings.
+/// The seven typed projections of an untyped result, as canonical strings. The expected-type errors are
+/// written as struct literals: the crate's own constructor functions are shared helpers of the code under
+/// test and must not define the expectation (round 11).
 fn projections(u: &ERes) -> Vec<(&'static str, String)> {
     let e = |x: &EErr| x.clone();
     vec![
@@ -25,7 +27,7 @@ fn projections(u: &ERes) -> Vec<(&'static str, String)> {
             "string",
             canon(&match u {
                 Ok(Value::String(s)) => Ok(s.clone()),
-                Ok(v) => Err(EvalexprError::expected_string(v.clone())),
+                Ok(v) => Err(EvalexprError::ExpectedString { actual: v.clone() }),
                 Err(x) => Err(e(x)),
             }),
         ),
@@ -33,7 +35,7 @@ fn projections(u: &ERes) -> Vec<(&'static str, String)> {
             "int",
             canon(&match u {
                 Ok(Value::Int(i)) => Ok(*i),
-                Ok(v) => Err(EvalexprError::expected_int(v.clone())),
+                Ok(v) => Err(EvalexprError::ExpectedInt { actual: v.clone() }),
                 Err(x) => Err(e(x)),
             }),
         ),
@@ -41,7 +43,7 @@ fn projections(u: &ERes) -> Vec<(&'static str, String)> {
             "float",
             canon(&match u {
                 Ok(Value::Float(f)) => Ok(*f),
-                Ok(v) => Err(EvalexprError::expected_float(v.clone())),
+                Ok(v) => Err(EvalexprError::ExpectedFloat { actual: v.clone() }),
                 Err(x) => Err(e(x)),
             }),
         ),
@@ -50,7 +52,7 @@ fn projections(u: &ERes) -> Vec<(&'static str, String)> {
             canon(&match u {
                 Ok(Value::Float(f)) => Ok(*f),
                 Ok(Value::Int(i)) => Ok(*i as f64),
-                Ok(v) => Err(EvalexprError::expected_number(v.clone())),
+                Ok(v) => Err(EvalexprError::ExpectedNumber { actual: v.clone() }),
                 Err(x) => Err(e(x)),
             }),
         ),
@@ -58,7 +60,7 @@ fn projections(u: &ERes) -> Vec<(&'static str, String)> {
             "boolean",
             canon(&match u {
                 Ok(Value::Boolean(b)) => Ok(*b),
-                Ok(v) => Err(EvalexprError::expected_boolean(v.clone())),
+                Ok(v) => Err(EvalexprError::ExpectedBoolean { actual: v.clone() }),
                 Err(x) => Err(e(x)),
             }),
         ),
@@ -66,7 +68,7 @@ fn projections(u: &ERes) -> Vec<(&'static str, String)> {
             "tuple",
             canon(&match u {
                 Ok(Value::Tuple(t)) => Ok(t.clone()),
-                Ok(v) => Err(EvalexprError::expected_tuple(v.clone())),
+                Ok(v) => Err(EvalexprError::ExpectedTuple { actual: v.clone() }),
                 Err(x) => Err(e(x)),
             }),
         ),
@@ -74,7 +76,7 @@ fn projections(u: &ERes) -> Vec<(&'static str, String)> {
             "empty",
             canon(&match u {
                 Ok(Value::Empty) => Ok(()),
-                Ok(v) => Err(EvalexprError::expected_empty(v.clone())),
+                Ok(v) => Err(EvalexprError::ExpectedEmpty { actual: v.clone() }),
                 Err(x) => Err(e(x)),
             }),
         ),
@@ -533,6 +535,28 @@ pub fn run(cfg: &Cfg) -> Report {
             }
         }
     }
+    // results of every size: `a` bound to a string of L bytes and to a tuple of L elements (nested once as
+    // well), for every L up to the bound, through every entry point: a payload or an expected-type error
+    // that is abridged, re-rendered or copied lossily from some size on breaks the projection (round 11)
+    {
+        let top = cfg.tier.pick(300usize, 1100usize);
+        for l in 0..=top {
+            let mut cs: Vec<(String, HCtx)> = Vec::new();
+            let mut c = HCtx::new();
+            c.set_value("a".into(), Value::String("x".repeat(l))).unwrap();
+            cs.push((format!("a = string of {} bytes", l), c));
+            let mut c = HCtx::new();
+            c.set_value("a".into(), Value::Tuple((0..l as i64).map(Value::Int).collect())).unwrap();
+            cs.push((format!("a = tuple of {} ints", l), c));
+            let mut c = HCtx::new();
+            c.set_value("a".into(), Value::Tuple(vec![Value::Tuple(vec![Value::String("y".repeat(l)); 2]), Value::Tuple(vec![Value::Empty; l])])).unwrap();
+            cs.push((format!("a = ((string of {l} bytes, same), tuple of {l} empty values)"), c));
+            for src in ["a", "(a, 1)", "b = a; b"] {
+                check(src, &cs, &mut stats);
+                stats.count("large-result-sources");
+            }
+        }
+    }
     // every operator (binary, prefix, assignment) between the variable `a` — bound to each type by the
     // contexts — and each constant that looks neutral, absorbing or constant-foldable for some type, in both
     // orders and nested: what a precompile-time simplification would rewrite, string level and tree level
@@ -562,11 +586,12 @@ pub fn run(cfg: &Cfg) -> Report {
         ("all six value types and errors occurred as untyped results".to_string(),
             ["Int", "Float", "Str", "Bool", "Tuple", "Empty"].iter().all(|t| stats.get(&format!("untyped-mut/ok-{}", t)) > 0) && stats.get("untyped-mut/err") > 0),
         ("sources that precompile and sources that do not".to_string(), stats.get("sources/precompile") > 0 && stats.get("sources/rejected") > 0),
+        ("the Debug renderings used to compare results tell all pool values apart".to_string(), debug_renderings_tell_values_apart()),
     ];
     Report {
         property: ID,
         level: "model_checking",
-        rule: format!("every token sequence of length <= {max} over the {a}-token alphabet `1 1.5 \" s \" true a f len ( ) , ; + = ! & &&` (well-formed or not; reaches all six result types and every error stage) x 13 contexts (fresh; a bound to each of the six types and to the empty tuple; user function f; builtins disabled; a user function shadowing the builtin `len`; a context holding variables named like the source text itself) x all 24 string-level entry points (run twice) + the 24 Node methods + build_operator_tree; oracle: each typed result is the projection of the matching untyped result, `_mut` variants leave the same context, tree level = string level, context-free = fresh HashMapContext, precompile error passed through by all 48; plus every history of 2 (quick) / 3 (thorough) context-free calls over a pool of 21 sources (assignments, assignments followed by a failure, reads, retypes) run back to back on one thread: the last call must behave as evaluation in a fresh context; plus every operator between the variable `a` and each of 12 constants that look neutral, absorbing or foldable (`0`, `1`, `0.0`, `1.0`, `\"\"`, `true`, `false`, `()` ...) in both orders, nested, assigned and as arguments; plus scaling families (sums, products, concatenations, negations, tuples, chains of assignments, nestings, call chains of n elements for n in 1..20 and up to 129 / 1..40 and up to 400) through all entry points. States = sources, transitions = entry-point executions. Non-trivial = sources of >= 2 tokens (each enumerated once)"),
+        rule: format!("every token sequence of length <= {max} over the {a}-token alphabet `1 1.5 \" s \" true a f len ( ) , ; + = ! & &&` (well-formed or not; reaches all six result types and every error stage) x 13 contexts (fresh; a bound to each of the six types and to the empty tuple; user function f; builtins disabled; a user function shadowing the builtin `len`; a context holding variables named like the source text itself) x all 24 string-level entry points (run twice) + the 24 Node methods + build_operator_tree; oracle: each typed result is the projection of the matching untyped result, `_mut` variants leave the same context, tree level = string level, context-free = fresh HashMapContext, precompile error passed through by all 48; plus every history of 2 (quick) / 3 (thorough) context-free calls over a pool of 21 sources (assignments, assignments followed by a failure, reads, retypes) run back to back on one thread: the last call must behave as evaluation in a fresh context; plus every operator between the variable `a` and each of 12 constants that look neutral, absorbing or foldable (`0`, `1`, `0.0`, `1.0`, `\"\"`, `true`, `false`, `()` ...) in both orders, nested, assigned and as arguments; plus results of every size (`a` bound to a string of L bytes, a tuple of L elements, and nested ones, for every L in 0..=300 / 0..=1100, read directly, inside a tuple and through an assignment); plus scaling families (sums, products, concatenations, negations, tuples, chains of assignments, nestings, call chains of n elements for n in 1..20 and up to 129 / 1..40 and up to 400) through all entry points. States = sources, transitions = entry-point executions. Non-trivial = sources of >= 2 tokens (each enumerated once)"),
         nontrivial_set: "counter:nontrivial-distinct",
         exhaustive: true,
         bound_completed: format!("token sequences of length {max}"),
